@@ -35,9 +35,14 @@ import (
 type c11TLSCase struct {
 	// DialCtx: background | cancelled-after-dial | timeout-expired-after-dial
 	DialCtx string `json:"dial_context"`
-	// Steps: call | drop (the server closes every connection it holds) | clone-call (a clone makes a call and is closed) | pause
+	// Steps: call | drop (the server closes every connection it holds) | clone-call (a clone makes a call and is closed) | pause |
+	// server-down (the server is shut down: connections dropped, port closed) | server-up (a new server listens on the same port)
 	Steps    []string `json:"steps"`
 	Enforced bool     `json:"enforced_version"`
+	// Cluster: the client is made with DialCluster on a one-address list (the pool dialer with its retry time-out) instead
+	// of Dial; RetryTimeoutMs = 0: WithRetryTimeout is not given (the documented default applies)
+	Cluster        bool `json:"dial_cluster,omitempty"`
+	RetryTimeoutMs int  `json:"retry_timeout_ms,omitempty"`
 }
 
 // recordingListener remembers the connections it accepted so that the test can drop them.
@@ -93,6 +98,7 @@ func c11TLSRun(c c11TLSCase) (sig string, err error) {
 	if lerr != nil {
 		return "harness-listen", lerr
 	}
+	addr := tcp.Addr().String()
 	ln := &recordingListener{Listener: tls.NewListener(tcp, c11ServerTLS())}
 	exec := kmipserver.NewBatchExecutor()
 	exec.Route(kmip.OperationActivate, kmipserver.HandleFunc(func(ctx context.Context, req *payloads.ActivateRequestPayload) (*payloads.ActivateResponsePayload, error) {
@@ -100,7 +106,13 @@ func c11TLSRun(c c11TLSCase) (sig string, err error) {
 	}))
 	srv := kmipserver.NewServer(ln, exec)
 	go func() { _ = srv.Serve() }()
-	defer func() { ln.dropAll(); _ = srv.Shutdown() }()
+	up := true
+	defer func() {
+		if up {
+			ln.dropAll()
+			_ = srv.Shutdown()
+		}
+	}()
 
 	opts := []kmipclient.Option{kmipclient.WithTlsConfig(&tls.Config{InsecureSkipVerify: true, MinVersion: tls.VersionTLS12})}
 	if c.Enforced {
@@ -120,7 +132,18 @@ func c11TLSRun(c c11TLSCase) (sig string, err error) {
 			dctx, cancel = context.WithTimeout(context.Background(), budget)
 			release = func() { <-dctx.Done(); cancel() }
 		}
-		cl, derr = kmipclient.DialContext(dctx, tcp.Addr().String(), opts...)
+		if c.Cluster {
+			copts := opts
+			if c.RetryTimeoutMs > 0 {
+				copts = append(append([]kmipclient.Option{}, opts...), kmipclient.WithRetryTimeout(time.Duration(c.RetryTimeoutMs)*time.Millisecond))
+			}
+			if perr := safely(func() error { cl, derr = kmipclient.DialClusterContext(dctx, []string{addr}, copts...); return nil }); perr != nil {
+				release()
+				return "dial-panics:cluster", fmt.Errorf("DialCluster([1 address]) with retry time-out option %d ms: %w", c.RetryTimeoutMs, perr)
+			}
+		} else {
+			cl, derr = kmipclient.DialContext(dctx, addr, opts...)
+		}
 		release()
 		if derr == nil || c.DialCtx != "timeout-expired-after-dial" || !errors.Is(derr, context.DeadlineExceeded) {
 			break
@@ -136,7 +159,16 @@ func c11TLSRun(c c11TLSCase) (sig string, err error) {
 		id := fmt.Sprintf("%s-%d", who, n)
 		ctx, cancel := context.WithTimeout(context.Background(), 30*time.Second)
 		defer cancel()
-		resp, cerr := cc.Request(ctx, &payloads.ActivateRequestPayload{UniqueIdentifier: id})
+		var resp kmip.OperationPayload
+		var cerr error
+		if perr := safely(func() error { resp, cerr = cc.Request(ctx, &payloads.ActivateRequestPayload{UniqueIdentifier: id}); return nil }); perr != nil {
+			return "call-panics:default-dialer", fmt.Errorf("step %d (%s): %w", n, who, perr)
+		}
+		if !up {
+			// nobody listens: nothing to conclude but that the call returned
+			failedInARow = 0
+			return "", nil
+		}
 		if cerr != nil && errors.Is(cerr, context.DeadlineExceeded) {
 			// real time on a machine that is busy elsewhere: nothing is concluded from a call that met the harness's own
 			// 30 s limit (hangs are the business of the fake-time tests)
@@ -164,9 +196,38 @@ func c11TLSRun(c c11TLSCase) (sig string, err error) {
 		case "drop":
 			ln.dropAll()
 			time.Sleep(2 * time.Millisecond)
+		case "server-down":
+			if up {
+				ln.dropAll()
+				_ = srv.Shutdown()
+				up = false
+				time.Sleep(2 * time.Millisecond)
+			}
+		case "server-up":
+			if !up {
+				var tcp2 net.Listener
+				var lerr2 error
+				for try := 0; try < 50; try++ {
+					if tcp2, lerr2 = net.Listen("tcp", addr); lerr2 == nil {
+						break
+					}
+					time.Sleep(10 * time.Millisecond)
+				}
+				if lerr2 != nil {
+					return "harness-listen", lerr2
+				}
+				ln = &recordingListener{Listener: tls.NewListener(tcp2, c11ServerTLS())}
+				srv = kmipserver.NewServer(ln, exec)
+				go func(s *kmipserver.Server) { _ = s.Serve() }(srv)
+				up = true
+				failedInARow = 0
+			}
 		case "pause":
 			time.Sleep(5 * time.Millisecond)
 		case "clone-call":
+			if !up {
+				continue
+			}
 			ctx, cancel := context.WithTimeout(context.Background(), 30*time.Second)
 			clone, cerr := cl.CloneCtx(ctx)
 			cancel()
@@ -193,7 +254,7 @@ func c11TLSRun(c c11TLSCase) (sig string, err error) {
 func TestC11DefaultDialer(t *testing.T) {
 	const name = "TestC11DefaultDialer"
 	rec := evid.New("C11", name, "the client's own TLS dialer (no WithDialerUnsafe) against a real kmipserver on a loopback TLS listener, real time: DialContext under a context that is {background, cancelled right after the dial, a 300 ms timeout that has expired after the dial}, "+
-		"then 3..8 steps of {call, the server drops every connection it holds, a clone makes a call, pause}; oracle: never two failed calls in a row while the server is up, responses echo their own identifier, Clone works, a fresh clone's first call succeeds; "+
+		"then 3..8 steps of {call, the server drops every connection it holds, a clone makes a call, pause}, in half of the cases with a restart of the server on the same port spliced in (calls being made while it is down and three more after it is back); one client in three is made with DialCluster on a one-address list (retry time-out option absent, 1 ms, 50 ms or 5 s); oracle: no call and no constructor panics, never two failed calls in a row while the server is up, responses echo their own identifier, Clone works, a fresh clone's first call succeeds; "+
 		"non-trivial = a drop is followed by a call or a clone; distinct by case").Attach(t)
 	if rp := evid.LoadReplay(name); rp != nil {
 		var c c11TLSCase
@@ -210,9 +271,21 @@ func TestC11DefaultDialer(t *testing.T) {
 		c := c11TLSCase{DialCtx: rapid.SampledFrom([]string{"background", "cancelled-after-dial", "cancelled-after-dial", "timeout-expired-after-dial"}).Draw(rt, "dialctx"),
 			Enforced: rapid.Bool().Draw(rt, "enforced"),
 			Steps:    rapid.SliceOfN(rapid.SampledFrom([]string{"call", "call", "drop", "clone-call", "pause"}), 3, 8).Draw(rt, "steps")}
+		if rapid.IntRange(0, 2).Draw(rt, "cluster") == 0 {
+			c.Cluster = true
+			c.RetryTimeoutMs = rapid.SampledFrom([]int{0, 1, 50, 5000, 5000}).Draw(rt, "retrytimeout")
+		}
+		if rapid.IntRange(0, 1).Draw(rt, "restart") == 0 {
+			// the server goes down and comes back (same port) somewhere in the script, calls being made meanwhile and afterwards
+			at := rapid.IntRange(0, len(c.Steps)).Draw(rt, "downat")
+			mid := rapid.SliceOfN(rapid.SampledFrom([]string{"call", "pause"}), 0, 2).Draw(rt, "whiledown")
+			tail := append([]string{"server-down"}, mid...)
+			tail = append(tail, "server-up", "call", "call", "call")
+			c.Steps = append(append(append([]string{}, c.Steps[:at]...), tail...), c.Steps[at:]...)
+		}
 		nt := false
 		for i, s := range c.Steps {
-			if s == "drop" && i+1 < len(c.Steps) {
+			if (s == "drop" || s == "server-up") && i+1 < len(c.Steps) {
 				nt = true
 			}
 		}
